@@ -143,6 +143,8 @@ var registry = map[string]propDef{
 	"C08p": {"other", props.C08params},
 	"C08k": {"other", props.C08compare},
 	"C08j": {"other", props.SpawnsJoined},
+	"C08m": {"other", props.MemoKeys},
+	"C12m": {"other", props.MemoKeys},
 	"C09":  {"other", props.C09},
 	"C09g": {"other", props.C09guards},
 	"C11t": {"other", props.C11table},
